@@ -8,6 +8,8 @@ for mp in sorted(glob.glob("/verif/seeded/*/meta.json")):
     caught = []
     for c in m.get("caught_by", []):
         caught.append(f"{c['check']} {c['tier']}: {'caught' if c.get('caught') else 'MISSED (exit %s)' % c.get('exit')}")
+    if m.get("void"):
+        caught = ["void: " + m["void"][:160] + "..."]
     needs = (m.get("needs") or "").replace("\n", " ").replace("|", "\\|")
     if len(needs) > 150:
         needs = needs[:147] + "..."
